@@ -91,6 +91,7 @@ type identity struct {
 type authzRule struct {
 	Resource string `json:"resource"` // users|groups|serviceaccounts|userextras
 	Name     string `json:"name"`     // "" = any
+	Sub      string `json:"sub"`      // subresource (the key of a userextras item), "" = any
 	Decision string `json:"decision"` // allow|deny|error
 }
 type stubResp struct {
@@ -511,7 +512,7 @@ func runScenario(t *testing.T, sc scenario) []ev {
 		w.add(ev{"k": "authz", "resource": a.GetResource(), "name": a.GetName(), "sub": a.GetSubresource(), "ns": a.GetNamespace(), "verb": a.GetVerb()})
 		d := sc.AuthzDefault
 		for _, r := range sc.Authz {
-			if r.Resource == a.GetResource() && (r.Name == "" || r.Name == a.GetName()) {
+			if r.Resource == a.GetResource() && (r.Name == "" || r.Name == a.GetName()) && (r.Sub == "" || r.Sub == a.GetSubresource()) {
 				d = r.Decision
 				break
 			}
